@@ -39,11 +39,12 @@ def notification_records():
 
 def payload(kind, text):
     m = Message()
-    if kind == "revoke":
+    if kind in ("revoke", "revoke_default_type_omitted"):
         m.protocol_message.key.remote_jid = "4915112345@s.whatsapp.net"
         m.protocol_message.key.from_me = True
         m.protocol_message.key.id = text or "ABCD"
-        m.protocol_message.type = 0
+        if kind == "revoke":
+            m.protocol_message.type = 0       # (REVOKE is the default: a peer may leave the field out)
         return m.SerializeToString()
     if kind == "image_as_text":
         m.image_message.url = "https://mmg.whatsapp.net/x"
@@ -254,7 +255,7 @@ def plan(tier):
         strategies.append(("ping_with_id_of_pending_" + how,
                            S.shape_strategy(ping).map(lambda t, _h=how: {"sub": "ack", "kind": "ping", "collide": _h, "tree": S.tree_to_json(t)}), n))
     for group in (False, True):
-        for pk in ("revoke", "image_as_text", "empty", "unknown_fields"):
+        for pk in ("revoke", "revoke_default_type_omitted", "image_as_text", "empty", "unknown_fields"):
             attrs = dict(_msg_attrs(group), type=S.CONST("text"))
             blob = S.Kind("PAYLOAD_" + pk, S.TEXT.strategy.map(lambda s, _pk=pk: payload(_pk, s)), is_bytes=True)
             shape = S.N("message", attrs, children=[S.N("proto", {}, data=blob)])
